@@ -14,8 +14,11 @@
      `fromHost (toHost v) = v`;
   4. callBin's decision table: static argument classes `ArgTy`, the ordered arms `Arm` (a FACT regenerated from
      the source), `argPrepY`, the receiver offset `rcvrOffsetY`, the type index chosen for argument i
-     `argTypeIndexY`, variadic packing `packY`, result routing `routeY`;
-  5. the reflect.MakeFunc wrapper `wrapperCall` (allocate frame, copy arguments, run body, return data[lo:lo+numRet]).
+     `argTypeIndexY`, variadic packing — the guarded choice between Call, CallSlice and the helper `callVariadicY`
+     (`packBinY` for callBin, `packFnValueY` for a host function reached through `call`, `packDeferY` for the record a defer
+     statement stores and runDeferred calls) —, result routing `routeY`;
+  5. the reflect.MakeFunc wrapper `wrapperCall` (allocate frame, copy arguments, run body, return data[lo:lo+numRet]) and the
+     wrapper of a method `methodWrapperCall` (the receiver is the one read when the wrapper was made).
 
   `reflect` itself (Call / CallSlice packing, assignability, MakeFunc) appears only through documented behaviour
   (`reflectCallPack`, `hostAssignable`): trusted base, exercised by the correspondence run.
@@ -445,8 +448,35 @@ def Cmp.holds (a b : Int) : Cmp → Bool
   | .eq => decide (a = b) | .unrecognised => false
 
 inductive CallKind where
-  | call | callSlice | unrecognised
+  | call            -- reflect.Value.Call
+  | callSlice       -- reflect.Value.CallSlice
+  | callVariadic    -- the helper callVariadic (interp/run.go): CallSlice with the zero slice when no variadic argument is passed
+  | unrecognised
   deriving DecidableEq, Repr
+
+/-- the guards under which callBin (`callFn`) and the function-value branch of `call` (`callf`) choose how to call -/
+inductive CGuard where
+  | ellipsis      -- n.action == aCallSlice (hasVariadicArgs): the call is written `f(a, xs...)`
+  | variadic      -- variadic >= 0: the callee's type is variadic
+  | always        -- the default
+  | unrecognised
+  deriving DecidableEq, Repr
+
+structure CallArm where
+  guard : CGuard
+  kind : CallKind
+  deriving DecidableEq, Repr
+
+def CGuard.holds (isVariadic ellipsis : Bool) : CGuard → Bool
+  | .ellipsis => ellipsis
+  | .variadic => isVariadic
+  | .always => true
+  | .unrecognised => false
+
+/-- the first arm whose guard holds -/
+def selectCall (isVariadic ellipsis : Bool) : List CallArm → CallKind
+  | [] => .unrecognised
+  | a :: rest => if a.guard.holds isVariadic ellipsis then a.kind else selectCall isVariadic ellipsis rest
 
 /-- index expressions of the result stores -/
 inductive IExpr where
@@ -467,9 +497,19 @@ structure Facts where
   argTypeElem : Bool              -- argType = funcType.In(variadic).Elem()
   defTypeCmp : Cmp                -- `i+rcvrOffset >= variadic` (target of the interface wrapper)
   defTypeElem : Bool              -- defType = funcType.In(variadic).Elem()  (the source says In(variadic))
-  callOnEllipsis : CallKind       -- n.action == aCallSlice → CallSlice
-  callOtherwise : CallKind
-  deferCall : CallKind            -- runCfg: val[0].Call(val[1:])
+  callArms : List CallArm         -- callBin's callFn, in order of precedence: aCallSlice → CallSlice, variadic → callVariadic, else Call
+  fvArms : List CallArm           -- `call`, host function held in a variable: callf, the same three arms
+  cvGuardVariadic : Bool          -- callVariadic: `t.IsVariadic() && …`
+  cvCmp : Cmp                     -- … `len(in) == t.NumIn()-1`
+  cvSub : Nat
+  cvThen : CallKind               -- v.CallSlice(append(in, reflect.Zero(t.In(len(in)))))
+  cvAppendZero : Bool
+  cvElse : CallKind               -- v.Call(in)
+  deferCall : CallKind            -- runCfg → runDeferred: callVariadic(val[0], val[1:])
+  deferWrapBin : Bool             -- callBin, deferStmt arm: `if n.action == aCallSlice { val[0] = deferCallSlice(val[0]) }`
+  deferWrapCall : Bool            -- call, deferStmt arm: `if hasVariadicArgs { val[0] = deferCallSlice(val[0]) }`
+  deferWrapKind : CallKind        -- deferCallSlice: the wrapper calls fn.CallSlice(args)
+  deferWrapVariadic : Bool        -- … and has the type reflect.FuncOf(in, out, false)
   assignSrcIdx : IExpr            -- aAssignX: v(f).Set(out[<idx>]) for rvalues[i]
   assignDstIdx : IExpr            -- rvalues[i] = … n.anc.child[<idx>]
   returnDstIdx : IExpr            -- aReturn: f.data[b+i]
@@ -478,6 +518,7 @@ structure Facts where
   nestedReadIdx : IExpr           -- consumer of nested call results: ind := c.findex + j
   wrapFrameIsDefTypes : Bool      -- newFrame(f, len(def.types), …)
   wrapFramePerCall : Bool         -- … and that newFrame call is INSIDE the function literal given to reflect.MakeFunc
+  wrapRecvAtCreation : Bool       -- the method receiver is read (`rcvr(f)`) OUTSIDE that literal: bound when the wrapper is made
   getFuncFramePerCall : Bool      -- getFunc: fr2 := newFrame(…) inside its reflect.MakeFunc literal
   wrapArgBase : IExpr             -- d = d[numRet:]  (base = numRet)
   wrapRcvrShift : Nat             -- d = d[numRet+1:]
@@ -527,18 +568,43 @@ def goPack (isVariadic ellipsis : Bool) (nFixed : Nat) (args : List Rep) : List 
   if !isVariadic || ellipsis then args
   else args.take nFixed ++ [if (args.drop nFixed).isEmpty then .nil else .tuple (listToRepL (args.drop nFixed))]
 
-def CallKind.run (isVariadic : Bool) (nFixed : Nat) (args : List Rep) : CallKind → List Rep
+/-- the two reflect entry points (documented behaviour) -/
+def CallKind.runR (isVariadic : Bool) (nFixed : Nat) (args : List Rep) : CallKind → List Rep
   | .call => reflectCall isVariadic nFixed args
   | .callSlice => reflectCallSlice args
-  | .unrecognised => []
+  | _ => []
+
+/-- `callVariadic(v, in)`: `if t := v.Type(); t.IsVariadic() && len(in) == t.NumIn()-1 { return v.CallSlice(append(in,
+    reflect.Zero(t.In(len(in))))) }; return v.Call(in)` — the zero value of the variadic parameter's slice type is nil.
+    `nFixed` is the number of non-variadic parameters (NumIn = nFixed + 1 for a variadic function). -/
+def callVariadicY (f : Facts) (isVariadic : Bool) (nFixed : Nat) (args : List Rep) : List Rep :=
+  let numIn : Int := (nFixed : Int) + (if isVariadic then 1 else 0)
+  if (!f.cvGuardVariadic || isVariadic) && f.cvCmp.holds (args.length : Int) (numIn - (f.cvSub : Int)) then
+    f.cvThen.runR isVariadic nFixed (if f.cvAppendZero then args ++ [Rep.nil] else args)
+  else f.cvElse.runR isVariadic nFixed args
+
+def CallKind.run (f : Facts) (isVariadic : Bool) (nFixed : Nat) (args : List Rep) : CallKind → List Rep
+  | .callVariadic => callVariadicY f isVariadic nFixed args
+  | k => k.runR isVariadic nFixed args
 
 /-- callBin's call of the host function -/
 def packBinY (f : Facts) (isVariadic ellipsis : Bool) (nFixed : Nat) (args : List Rep) : List Rep :=
-  (if ellipsis then f.callOnEllipsis else f.callOtherwise).run isVariadic nFixed args
+  (selectCall isVariadic ellipsis f.callArms).run f isVariadic nFixed args
 
-/-- a deferred host call is run by runCfg -/
-def packDeferY (f : Facts) (isVariadic : Bool) (nFixed : Nat) (args : List Rep) : List Rep :=
-  f.deferCall.run isVariadic nFixed args
+/-- `call` when the function value turns out to be a host function (`fv := hp.F; fv(…)`, a method value, a function result) -/
+def packFnValueY (f : Facts) (isVariadic ellipsis : Bool) (nFixed : Nat) (args : List Rep) : List Rep :=
+  (selectCall isVariadic ellipsis f.fvArms).run f isVariadic nFixed args
+
+/-- A deferred call. The defer statement stores the record `[fn, args…]` — with `fn` replaced by `deferCallSlice(fn)` when the
+    call has an ellipsis and the arm (`viaBin`: callBin's, else call's) does that —; runCfg → runDeferred calls the record's
+    function on the record's arguments with `deferCall`. The wrapper made by deferCallSlice has the plain (or, were the flag
+    set, variadic) signature of `fn` and hands what it receives to `fn` with `deferWrapKind`. -/
+def packDeferY (f : Facts) (viaBin isVariadic ellipsis : Bool) (nFixed : Nat) (args : List Rep) : List Rep :=
+  if ellipsis && (if viaBin then f.deferWrapBin else f.deferWrapCall) then
+    let wv := isVariadic && f.deferWrapVariadic
+    let got := f.deferCall.run f wv (if isVariadic && !wv then nFixed + 1 else nFixed) args
+    f.deferWrapKind.runR isVariadic nFixed got
+  else f.deferCall.run f isVariadic nFixed args
 
 def RepL.snoc : RepL → Rep → RepL
   | .nil, v => .cons v .nil
@@ -641,6 +707,17 @@ def wrapperCallWith (lo : Nat) (hi : IExpr) (f : Facts) (d : FnDef) (call : Rep 
 
 def wrapperCall (f : Facts) := wrapperCallWith f.wrapResLo f.wrapResHi f
 def closureCall (f : Facts) := wrapperCallWith f.getFuncResLo f.getFuncResHi f
+
+/-- Calling the reflect.MakeFunc wrapper of an interpreted METHOD (`n.recv != nil`; `d.params` starts with the receiver):
+    `recvMade` is what the receiver expression held when the wrapper was MADE (the method value `mv := x.M` was evaluated,
+    `defer x.M()` / `go x.M()` executed, the method was handed to the host), `recvNow` what it holds when the wrapper is
+    CALLED. The literal stores the receiver in `d[numRet]` and the arguments behind it (`d = d[numRet+1:]`). -/
+def methodWrapperCall (f : Facts) (d : FnDef) (call : Rep → List Rep → List Rep) (recvMade recvNow : Rep) (ins : List Rep) : List Rep :=
+  let fr0 := List.replicate (if f.wrapFrameIsDefTypes then d.frameLen else 0) Rep.nil
+  let fr1 := setAt fr0 d.numRet (if f.wrapRecvAtCreation then recvMade else recvNow)
+  let fr2 := fillArgs f.wrapSkipShort fr1 (d.numRet + f.wrapRcvrShift) d.params.tail ins
+  let fr3 := d.body call fr2
+  (fr3.drop f.wrapResLo).take (f.wrapResHi.eval 0 d.numRet - f.wrapResLo)
 
 /-- the same function called inside the script (`call`): fresh frame, arguments copied behind the results, the
     results are the first `numRet` cells -/
